@@ -10,6 +10,9 @@ SelFD(f, d) == O("SelFD", d, f, 0)
 Block == O("Block", 0, "-", 0)
 Raise == O("Raise", 0, "-", 0)
 Exit == O("Exit", 0, "-", 0)
+Recv(f, d) == O("Recv", d, f, 0)
+Send(scr) == [op |-> "Send", d |-> 0, fd |-> "-", sub |-> scr, v |-> "-", lk |-> 0]
+Ck(k) == O(k, 0, "-", 0)
 Acq(L) == O("Acq", 1, "-", L)
 AcqNB(L) == O("Acq", 0, "-", L)
 Rel(L) == O("Rel", 0, "-", L)
@@ -24,6 +27,11 @@ ProgsA2 == SeqsUpTo(OpsA, 2)
 OpsQ == {Resched, SleepN(1), SelFD("a", 1), Block, Raise, Call(<<SleepOp(1)>>, "ret"), Call(<<>>, "throw")}
 ProgsQ1 == SeqsUpTo(OpsQ, 1)
 ProgsQ2 == SeqsUpTo(OpsQ, 2)
+\* socket helpers: Recv with/without timeout; Send with per-call socket outcomes (F full, P partial, B would block)
+OpsIO == {Recv("a", NoTO), Recv("a", 1), Send(<<Ck("F")>>), Send(<<Ck("P"), Ck("F")>>), Send(<<Ck("B"), Ck("F")>>),
+          Send(<<Ck("P"), Ck("B"), Ck("F")>>), Resched, SleepN(1)}
+ProgsIO1 == SeqsUpTo(OpsIO, 1)
+ProgsIO2 == SeqsUpTo(OpsIO, 2)
 \* small vocabulary for 3 tasks / deeper programs
 OpsB == {Resched, SleepN(1), SelT(2), Block, Call(<<SleepOp(1)>>, "ret")}
 ProgsB2 == SeqsUpTo(OpsB, 2)
